@@ -28,22 +28,26 @@ import (
 	"time"
 
 	"verifh/common"
+
+	"github.com/dgraph-io/badger/v3"
 )
 
 type spec struct {
-	Seed     int64     `json:"seed"`
-	ProgIDs  []int     `json:"prog_ids"`
-	Avail    []string  `json:"avail"`
-	Out      string    `json:"out"`
-	Scratch  string    `json:"scratch"`
-	Explicit *Program  `json:"explicit,omitempty"` // replay: run this program …
-	Faults   []Fault   `json:"faults,omitempty"`   // … with these faults
+	Seed     int64    `json:"seed"`
+	ProgIDs  []int    `json:"prog_ids"`
+	Avail    []string `json:"avail"`
+	Out      string   `json:"out"`
+	Scratch  string   `json:"scratch"`
+	Explicit *Program `json:"explicit,omitempty"` // replay: run this program …
+	Faults   []Fault  `json:"faults,omitempty"`   // … with these faults
 }
 
 type childShared struct {
 	scratch  string
 	worldSeq int
 	extra    map[string]any
+	dbMu     sync.Mutex
+	db       *badger.DB
 }
 
 type lineWriter struct {
@@ -101,15 +105,24 @@ func childMain() {
 				if w != nil {
 					go w.close()
 				}
-				sh.worldSeq++
 				var err error
-				w, err = newWorld(fmt.Sprintf("w%d", sh.worldSeq), prog.Res, sh)
+				for try := 0; try < 3; try++ {
+					sh.worldSeq++
+					w, err = newWorld(fmt.Sprintf("w%d", sh.worldSeq), prog.Res, sh)
+					if err == nil {
+						break
+					}
+				}
 				if err != nil {
 					lw.emit(map[string]any{"kind": "world-error", "prog": prog.ID, "case": ci, "err": err.Error()})
 					w = nil
 					continue
 				}
 			}
+			if w.casesRun == 0 {
+				lw.emit(map[string]any{"kind": "world", "prog": prog.ID, "case": ci, "id": w.id})
+			}
+			w.casesRun++
 			lw.emit(map[string]any{"kind": "start", "prog": prog.ID, "case": ci, "fault": flt})
 			res := runCase(w, prog, ci, flt, rng, &uniq)
 			if res.WorldDead {
@@ -131,6 +144,9 @@ func childMain() {
 	}
 	lw.emit(map[string]any{"kind": "end"})
 	f.Close()
+	if sh.db != nil {
+		sh.db.Close()
+	}
 	os.Exit(0)
 }
 
@@ -153,6 +169,7 @@ type agg struct {
 	events        int64
 	loud          int
 	overlaps      int
+	overlapRes    map[string]int
 	starveNA      int
 	nontrivial    map[string]bool
 	faultKinds    map[string]int
@@ -198,8 +215,8 @@ func main() {
 	}
 	r := common.Start("C01", "fault_enumeration")
 	scratch := common.Scratch("c01")
-	defer os.RemoveAll(scratch)
-	a := &agg{progs: map[int]*progInfo{}, nontrivial: map[string]bool{}, faultKinds: map[string]int{}, kinds: map[string]int{},
+	scratchDir = scratch // removed explicitly before Finish (which exits the process)
+	a := &agg{overlapRes: map[string]int{}, progs: map[int]*progInfo{}, nontrivial: map[string]bool{}, faultKinds: map[string]int{}, kinds: map[string]int{},
 		failedKinds: map[string]int{}, failedMixes: map[string]int{}}
 	a.samples.N = 6
 	avail := availList()
@@ -243,6 +260,7 @@ func runWorker(r *common.Run, a *agg, sp spec, scratch string, watchdog time.Dur
 	var lastStart map[string]any
 	curProg := -1
 	var faultsSeen []Fault
+	mapFaultInWorld := false // a PreCommit failure under the harness map happened in the world the current case runs in
 	for _, rec := range recs {
 		switch rec["kind"] {
 		case "prog":
@@ -259,12 +277,17 @@ func runWorker(r *common.Run, a *agg, sp spec, scratch string, watchdog time.Dur
 			a.mu.Unlock()
 			curProg = pi.Prog.ID
 			faultsSeen = nil
+		case "world":
+			mapFaultInWorld = false
 		case "start":
 			lastStart = rec
 			var f Fault
 			b, _ := json.Marshal(rec["fault"])
 			_ = json.Unmarshal(b, &f)
 			faultsSeen = append(faultsSeen, f)
+			if strings.HasPrefix(f.Kind, "mappc") {
+				mapFaultInWorld = true
+			}
 		case "case":
 			lastStart = nil
 			var res caseResult
@@ -306,7 +329,16 @@ func runWorker(r *common.Run, a *agg, sp spec, scratch string, watchdog time.Dur
 		if len(faultsSeen) > 0 {
 			wit.Fault = faultsSeen[len(faultsSeen)-1]
 		}
+		if classifyFatal(line) == "twopc-state-changed-during-precommit" && mapFaultInWorld && strings.Contains(line, "tpcsub") {
+			// a 2PC variable that lives under the same IncMap/HashMap as a child whose PreCommit failed
+			wit.Violation.Key = "C01:map-precommit-returns-before-siblings-finish:twopc-child-aborted-or-retried-during-its-precommit"
+		}
 		r.Report(wit.Violation.Key, fmt.Sprintf("worker process died during program %d case %d (%s): %s", curProg, wit.Case, wit.Fault, line), wit)
+	} else if line := firstPanicLine(cres.Output); classifyFatal(line) == "twopc-state-changed-during-precommit" && strings.Contains(line, "tpcsub") {
+		// the pre-commit goroutine a map abandoned earlier (2PC back-off sleep) fired between two cases
+		r.Report("C01:map-precommit-returns-before-siblings-finish:twopc-child-aborted-or-retried-during-its-precommit",
+			fmt.Sprintf("worker process died between cases after program %d: %s", curProg, line), witness{Output: tail, Faults: faultsSeen,
+				Violation: violation{Key: "abandoned 2PC pre-commit fired later", Desc: line}})
 	} else {
 		r.Inconclusive(fmt.Sprintf("worker exited (code %d) outside any case; output tail: %s", cres.ExitCode, lastLines(tail, 5)))
 	}
@@ -352,6 +384,8 @@ func classifyFatal(line string) string {
 		return "concurrent-map-access"
 	case strings.Contains(l, "all goroutines are asleep"):
 		return "deadlock"
+	case strings.Contains(l, "unexpected tag") && strings.Contains(l, "abort_ack"):
+		return "nested-abort-after-timed-out-request-meets-stale-ack"
 	case strings.Contains(l, "stale"):
 		return "nested-stale-channel-value"
 	}
@@ -372,6 +406,9 @@ func absorb(r *common.Run, a *agg, res *caseResult, faultsSeen []Fault) {
 	a.spurious += res.Spurious
 	a.events += res.Events
 	a.overlaps += res.Overlaps
+	for k, v := range res.OverlapRes {
+		a.overlapRes[k] += v
+	}
 	if res.Loud {
 		a.loud++
 	}
@@ -418,12 +455,15 @@ func absorb(r *common.Run, a *agg, res *caseResult, faultsSeen []Fault) {
 	}
 }
 
+var scratchDir string
+
 func finish(r *common.Run, a *agg, avail []string, nprog int) {
+	_ = os.RemoveAll(scratchDir)
 	covered := map[string]bool{}
 	for k := range a.kinds {
 		covered[k] = true
 	}
-	var kc, knc []string
+	kc, knc := []string{}, []string{}
 	for _, k := range allKinds() {
 		if covered[k] {
 			kc = append(kc, k)
@@ -459,25 +499,26 @@ func finish(r *common.Run, a *agg, avail []string, nprog int) {
 		Samples: a.samples.S,
 		Floor:   r.Pick(100, 2000),
 		Extra: map[string]any{
-			"programs":                             a.progsRun,
-			"programs_requested":                   nprog,
-			"attempts":                             a.attempts,
-			"aborted_attempts":                     a.aborts,
-			"committed_sections":                   a.commits,
-			"attempts_refused_by_real_resources":   a.spurious,
-			"wrapper_events":                       a.events,
-			"executions_by_fault_kind":             a.faultKinds,
-			"kinds_covered":                        kc,
-			"kinds_not_covered":                    knc,
-			"executions_touching_kind":             a.kinds,
-			"nontrivial_failed_attempts_by_kind":   a.failedKinds,
-			"failed_attempt_kind_mixes_top":        topMix,
-			"distinct_failed_attempt_kind_mixes":   len(mixes),
-			"documented_loud_failures_accepted":    a.loud,
-			"abort_during_inflight_precommit_seen": a.overlaps,
-			"starve_positions_not_applicable":      a.starveNA,
-			"worker_crashes":                       a.crashed,
-			"resource_instances_available":         avail,
+			"programs":                                    a.progsRun,
+			"programs_requested":                          nprog,
+			"attempts":                                    a.attempts,
+			"aborted_attempts":                            a.aborts,
+			"committed_sections":                          a.commits,
+			"attempts_refused_by_real_resources":          a.spurious,
+			"wrapper_events":                              a.events,
+			"executions_by_fault_kind":                    a.faultKinds,
+			"kinds_covered":                               kc,
+			"kinds_not_covered":                           knc,
+			"executions_touching_kind":                    a.kinds,
+			"nontrivial_failed_attempts_by_kind":          a.failedKinds,
+			"failed_attempt_kind_mixes_top":               topMix,
+			"distinct_failed_attempt_kind_mixes":          len(mixes),
+			"documented_loud_failures_accepted":           a.loud,
+			"abort_during_inflight_precommit_seen":        a.overlaps,
+			"abort_during_inflight_precommit_by_resource": a.overlapRes,
+			"starve_positions_not_applicable":             a.starveNA,
+			"worker_crashes":                              a.crashed,
+			"resource_instances_available":                avail,
 		},
 	}, []string{
 		"the programs quantifier is sampled (PRNG-generated programs and resource mixes); fault positions are enumerated completely per program, with the fault firing once (sometimes twice in a row) at the first visit of the label",
@@ -517,5 +558,6 @@ func replay(r *common.Run, a *agg, scratch string, avail []string) {
 		// schedule-dependent: re-report the recorded verdict
 		r.Report(rf.Key, rf.Desc+" (recorded verdict; re-execution did not reproduce it)", w)
 	}
+	_ = os.RemoveAll(scratchDir)
 	r.Finish(common.Coverage{Evaluations: a.evals + 1, DistinctNontrivial: len(a.nontrivial), Rule: "replay", Samples: []any{w.Shape}}, nil)
 }
